@@ -322,6 +322,7 @@ package jsonpatch
 //@   invariant valid-so-far: forall j int :: 0 <= j && j <= rangeindex ==> validOp(p[j])
 
 //@ func DecodePatch
+//@   modifies region(lazyNode.which), region(lazyNode.doc), region(lazyNode.ary), region(lazyNode.raw), region(partialDoc.obj), region(partialDoc.keys), region(partialDoc.opts), region(partialDoc.self), region(partialArray.nodes), region(partialArray.self), region(elem string), region(elem *lazyNode), region(map map[string]*lazyNode), region(cell int64), region(cell container), region(cell any), region(json.scanner.step), region(json.scanner.err), region(json.scanner.endTop), region(json.scanner.bytes), region(json.scanner.parseState), region(elem int), ghost(BufContent)
 //@   ensures[C11,C08] nil-on-error: err != nil ==> result.0 == nil
 //@   ensures[C11,C16] rejects-ill-formed: !wf(buf) ==> err != nil
 //@   ensures[C04,C11] patch-ok: err == nil ==> patchOK(result.0)
@@ -551,6 +552,7 @@ package jsonpatch
 //@   invariant both-arrays: n.which == eAry && o.which == eAry && n.ary != nil && o.ary != nil && len(n.ary.nodes) == len(o.ary.nodes) && n.ary.nodes == atentry(n.ary.nodes) && o.ary.nodes == atentry(o.ary.nodes)
 
 //@ func Equal
+//@   modifies region(lazyNode.which), region(lazyNode.doc), region(lazyNode.ary), region(lazyNode.raw), region(partialDoc.obj), region(partialDoc.keys), region(partialDoc.opts), region(partialDoc.self), region(partialArray.nodes), region(partialArray.self), region(elem string), region(elem *lazyNode), region(map map[string]*lazyNode), region(cell int64), region(cell container), region(cell any), region(json.scanner.step), region(json.scanner.err), region(json.scanner.endTop), region(json.scanner.bytes), region(json.scanner.parseState), region(elem int), ghost(BufContent)
 //@   ensures[C06,C16] ill-formed: !wf(a) || !wf(b) ==> !result
 
 // ---- EnsurePathExistsOnAdd (C14) ----
@@ -586,7 +588,11 @@ package jsonpatch
 //@   modifies nothing
 //@   ensures[C12,C09] defaults: result != nil && fresh(result) && result.SupportNegativeIndices == SupportNegativeIndices && result.AccumulatedCopySizeLimit == AccumulatedCopySizeLimit && !result.AllowMissingPathOnRemove && !result.EnsurePathExistsOnAdd && result.EscapeHTML
 
+// C09 (inputs are never modified): the exported functions write only the document tree they build, the scratch
+// state of the pooled scanner, and memory they allocate - in particular no element of a byte slice and no map,
+// slice or raw message of a Patch that existed before the call (frame obligations, class F).
 //@ func (Patch).ApplyIndentWithOptions
+//@   modifies region(lazyNode.which), region(lazyNode.doc), region(lazyNode.ary), region(lazyNode.raw), region(partialDoc.obj), region(partialDoc.keys), region(partialDoc.opts), region(partialDoc.self), region(partialArray.nodes), region(partialArray.self), region(elem string), region(elem *lazyNode), region(map map[string]*lazyNode), region(cell int64), region(cell container), region(cell any), region(json.scanner.step), region(json.scanner.err), region(json.scanner.endTop), region(json.scanner.bytes), region(json.scanner.parseState), region(elem int), ghost(BufContent)
 //@   requires options: options != nil
 //@   requires patch: patchOK(p) && (forall j int {p[j]} :: 0 <= j && j < len(p) ==> validOp(p[j]))
 //@   ensures[C08] nothing-with-error: err != nil ==> result.0 == nil
@@ -676,6 +682,7 @@ package jsonpatch
 //@   modifies nothing
 
 //@ func doMergePatch
+//@   modifies region(lazyNode.which), region(lazyNode.doc), region(lazyNode.ary), region(lazyNode.raw), region(partialDoc.obj), region(partialDoc.keys), region(partialDoc.opts), region(partialDoc.self), region(partialArray.nodes), region(partialArray.self), region(elem string), region(elem *lazyNode), region(map map[string]*lazyNode), region(cell int64), region(cell container), region(cell any), region(json.scanner.step), region(json.scanner.err), region(json.scanner.endTop), region(json.scanner.bytes), region(json.scanner.parseState), region(elem int), ghost(BufContent)
 //@   assume A-merge-entry: noNullKids()
 //@   ensures[C02,C16] rejects-ill-formed-doc: !wf(docData) ==> err != nil && result.0 == nil
 //@   ensures[C02,C16] rejects-ill-formed-patch: !wf(patchData) ==> err != nil && result.0 == nil
@@ -683,15 +690,18 @@ package jsonpatch
 // ---- exported wrappers: "every patch that DecodePatch accepts, any non-nil options" ----
 
 //@ func (Patch).Apply
+//@   modifies region(lazyNode.which), region(lazyNode.doc), region(lazyNode.ary), region(lazyNode.raw), region(partialDoc.obj), region(partialDoc.keys), region(partialDoc.opts), region(partialDoc.self), region(partialArray.nodes), region(partialArray.self), region(elem string), region(elem *lazyNode), region(map map[string]*lazyNode), region(cell int64), region(cell container), region(cell any), region(json.scanner.step), region(json.scanner.err), region(json.scanner.endTop), region(json.scanner.bytes), region(json.scanner.parseState), region(elem int), ghost(BufContent)
 //@   requires patch: patchOK(p) && (forall j int {p[j]} :: 0 <= j && j < len(p) ==> validOp(p[j]))
 //@   ensures[C08] nothing-with-error: err != nil ==> result.0 == nil
 
 //@ func (Patch).ApplyWithOptions
+//@   modifies region(lazyNode.which), region(lazyNode.doc), region(lazyNode.ary), region(lazyNode.raw), region(partialDoc.obj), region(partialDoc.keys), region(partialDoc.opts), region(partialDoc.self), region(partialArray.nodes), region(partialArray.self), region(elem string), region(elem *lazyNode), region(map map[string]*lazyNode), region(cell int64), region(cell container), region(cell any), region(json.scanner.step), region(json.scanner.err), region(json.scanner.endTop), region(json.scanner.bytes), region(json.scanner.parseState), region(elem int), ghost(BufContent)
 //@   requires options: options != nil
 //@   requires patch: patchOK(p) && (forall j int {p[j]} :: 0 <= j && j < len(p) ==> validOp(p[j]))
 //@   ensures[C08] nothing-with-error: err != nil ==> result.0 == nil
 
 //@ func (Patch).ApplyIndent
+//@   modifies region(lazyNode.which), region(lazyNode.doc), region(lazyNode.ary), region(lazyNode.raw), region(partialDoc.obj), region(partialDoc.keys), region(partialDoc.opts), region(partialDoc.self), region(partialArray.nodes), region(partialArray.self), region(elem string), region(elem *lazyNode), region(map map[string]*lazyNode), region(cell int64), region(cell container), region(cell any), region(json.scanner.step), region(json.scanner.err), region(json.scanner.endTop), region(json.scanner.bytes), region(json.scanner.parseState), region(elem int), ghost(BufContent)
 //@   requires patch: patchOK(p) && (forall j int {p[j]} :: 0 <= j && j < len(p) ==> validOp(p[j]))
 //@   ensures[C08] nothing-with-error: err != nil ==> result.0 == nil
 
@@ -767,17 +777,29 @@ package jsonpatch
 //@   ensures[C03] other-roots-do-not: wf(input) && kind(val(bytes(input))) != KArr ==> !result
 
 //@ func createObjectMergePatch
+//@   modifies region(lazyNode.which), region(lazyNode.doc), region(lazyNode.ary), region(lazyNode.raw), region(partialDoc.obj), region(partialDoc.keys), region(partialDoc.opts), region(partialDoc.self), region(partialArray.nodes), region(partialArray.self), region(elem string), region(elem *lazyNode), region(map map[string]*lazyNode), region(cell int64), region(cell container), region(cell any), region(json.scanner.step), region(json.scanner.err), region(json.scanner.endTop), region(json.scanner.bytes), region(json.scanner.parseState), region(elem int), ghost(BufContent)
 //@   callsite[C03] getDiff#1 difference-of-the-two-decoded-documents: arg_a == *originalDoc && arg_b == *modifiedDoc
 //@   callsite[C03] Marshal#1 the-difference-is-what-is-returned: arg_v == dest
 //@   ensures[C03,C16] rejects-ill-formed: !wf(originalJSON) || !wf(modifiedJSON) ==> err != nil && result.0 == nil
 //@   ensures[C03] rejects-non-objects: wf(originalJSON) && wf(modifiedJSON) && ((kind(val(bytes(originalJSON))) != KObj && kind(val(bytes(originalJSON))) != KNull) || (kind(val(bytes(modifiedJSON))) != KObj && kind(val(bytes(modifiedJSON))) != KNull)) ==> err != nil && result.0 == nil
 
 //@ func createArrayMergePatch
+//@   modifies region(lazyNode.which), region(lazyNode.doc), region(lazyNode.ary), region(lazyNode.raw), region(partialDoc.obj), region(partialDoc.keys), region(partialDoc.opts), region(partialDoc.self), region(partialArray.nodes), region(partialArray.self), region(elem string), region(elem *lazyNode), region(map map[string]*lazyNode), region(cell int64), region(cell container), region(cell any), region(json.scanner.step), region(json.scanner.err), region(json.scanner.endTop), region(json.scanner.bytes), region(json.scanner.parseState), region(elem int), ghost(BufContent)
 //@   callsite[C03] createObjectMergePatch#1 element-by-element: arg_originalJSON == (*originalDocs)[i] && arg_modifiedJSON == (*modifiedDocs)[i]
 //@   ensures[C03,C16] rejects-ill-formed: !wf(originalJSON) || !wf(modifiedJSON) ==> err != nil && result.0 == nil
 //@   ensures[C03] rejects-different-lengths: wf(originalJSON) && wf(modifiedJSON) && kind(val(bytes(originalJSON))) == KArr && kind(val(bytes(modifiedJSON))) == KArr && jlen(val(bytes(originalJSON))) != jlen(val(bytes(modifiedJSON))) ==> err != nil && result.0 == nil
 
+//@   loop 1
+//@   invariant result-is-private: result == nil || fresh(result)
+
 //@ func CreateMergePatch
+//@   modifies region(lazyNode.which), region(lazyNode.doc), region(lazyNode.ary), region(lazyNode.raw), region(partialDoc.obj), region(partialDoc.keys), region(partialDoc.opts), region(partialDoc.self), region(partialArray.nodes), region(partialArray.self), region(elem string), region(elem *lazyNode), region(map map[string]*lazyNode), region(cell int64), region(cell container), region(cell any), region(json.scanner.step), region(json.scanner.err), region(json.scanner.endTop), region(json.scanner.bytes), region(json.scanner.parseState), region(elem int), ghost(BufContent)
 //@   ensures[C03,C16] rejects-ill-formed: !wf(originalJSON) || !wf(modifiedJSON) ==> err != nil
 //@   ensures[C03] rejects-mixed-roots: wf(originalJSON) && wf(modifiedJSON) && ((kind(val(bytes(originalJSON))) == KArr) != (kind(val(bytes(modifiedJSON))) == KArr)) ==> err != nil && result.0 == nil
 //@   ensures[C03] rejects-scalar-roots: wf(originalJSON) && wf(modifiedJSON) && kind(val(bytes(originalJSON))) != KArr && kind(val(bytes(modifiedJSON))) != KArr && ((kind(val(bytes(originalJSON))) != KObj && kind(val(bytes(originalJSON))) != KNull) || (kind(val(bytes(modifiedJSON))) != KObj && kind(val(bytes(modifiedJSON))) != KNull)) ==> err != nil
+
+//@ func MergePatch
+//@   modifies region(lazyNode.which), region(lazyNode.doc), region(lazyNode.ary), region(lazyNode.raw), region(partialDoc.obj), region(partialDoc.keys), region(partialDoc.opts), region(partialDoc.self), region(partialArray.nodes), region(partialArray.self), region(elem string), region(elem *lazyNode), region(map map[string]*lazyNode), region(cell int64), region(cell container), region(cell any), region(json.scanner.step), region(json.scanner.err), region(json.scanner.endTop), region(json.scanner.bytes), region(json.scanner.parseState), region(elem int), ghost(BufContent)
+
+//@ func MergeMergePatches
+//@   modifies region(lazyNode.which), region(lazyNode.doc), region(lazyNode.ary), region(lazyNode.raw), region(partialDoc.obj), region(partialDoc.keys), region(partialDoc.opts), region(partialDoc.self), region(partialArray.nodes), region(partialArray.self), region(elem string), region(elem *lazyNode), region(map map[string]*lazyNode), region(cell int64), region(cell container), region(cell any), region(json.scanner.step), region(json.scanner.err), region(json.scanner.endTop), region(json.scanner.bytes), region(json.scanner.parseState), region(elem int), ghost(BufContent)
